@@ -7,6 +7,7 @@ import ApolloModel.Proofs.ExecRules2
 import ApolloModel.Proofs.ExecRules3
 import ApolloModel.Proofs.ExpandSelections
 import ApolloModel.Proofs.ExpandSelections2
+import ApolloModel.Proofs.ExecValues
 /-
 C17 — Executable validation agrees with the specification.
 
@@ -40,7 +41,12 @@ INVENTORY — every rule of the oracle harness/src/specexec.rs and its Lean coun
   §5.5.2.2 FragmentSpreadsMustNotFormCycles C21 fragment_cycle_sound (+ C18)              c17.frags
   §5.5.2.3 FragmentSpreadIsPossible         fragment_spread_possible_iff_spec, possible_types_spec   c17.frags
   §5.6.1–4 ValuesOfCorrectType, InputObjectFieldNames / FieldUniqueness / RequiredFields
-                                            ORACLE ONLY (const values: builderF's Model/ValueCheck.lean, C14); same_value_* above
+                                            const values: C14 value_rule_iff_spec (builderF's Model/ValueCheck.lean); with variables:
+                                            exec_value_rule_iff_spec (the descent, exact, variables inside literals by the named type),
+                                            argument_value_iff_spec (one argument incl. validate_variable_usage, exact),
+                                            argument_value_iff_spec_no_nested (against §5.6 + §5.8.5 IsVariableUsageAllowed when no variable
+                                            stands inside a literal), spec_argument_value_accepted (spec ⇒ code always),
+                                            nested_position_value_witness (why the guard); same_value_* above   c17.values
   §5.7.1–3 DirectivesAreDefined / InValidLocations / UniquePerLocation
                                             C14 directive_applications_rule_iff_spec on the shared `dirDiags` (cited)   c20.schema
   §5.8.1   VariableUniqueness               variable_uniqueness_iff_spec                  c17.vars
@@ -489,15 +495,88 @@ theorem expand_cycle_witness :
 
 end Expansion
 
-/-- THE COVERED RULES, TOGETHER (partial: see the inventory at the top for what stays outside — values
-    §5.6, the directive rules (C14), fragment cycles (C21), merging and subscriptions (sections 1–5),
+/-! `value_of_correct_type` / `validate_variable_usage` for one argument: §5.6 values at executable positions -/
+section Values56
+open Apollo.ExecValues
+
+/-- §5.6.1–4 for a value that may contain variables, the descent `value_of_correct_type(schema, ty, value, var_defs)`:
+    on a schema whose input fields have defined input types and for a defined input type, the code reports nothing
+    iff the value is a value of the type in the sense of `Spec.ExecValues.CoercesV` — constants as in C14's
+    `value_rule_iff_spec` (§3.5, §3.9–§3.12), lists item by item, input objects with unique (§5.6.3), defined (§5.6.2)
+    keys and every required field present and non-null (§5.6.4), a custom scalar accepting any literal with unique keys
+    at every depth and defined variables — where a variable must be defined and is judged by `NamedRule`: the named type
+    of the position is the variable's (what the code compares; the specification's IsVariableUsageAllowed is stricter,
+    see `nested_position_value_witness`). -/
+theorem exec_value_rule_iff_spec (S : ValueCheck.Schema) (hS : ValueCheck.Spec.Closed S) (vars : List XVarDef)
+    (v : ValueCheck.Value) (ty : ValueCheck.Ty) (hd : Bool) (hdef : ValueCheck.Spec.Defined S ty) :
+    ValueCheck.check S (checkVars vars) ty v = [] ↔ CoercesV S vars (NamedRule S) ty hd v :=
+  checkV_iff S hS vars v ty hd hdef
+
+/-- one argument as `validate_field`/`validate_directives` treat it (`validate_variable_usage`, then `validate_values`),
+    exact: nothing is reported iff a variable given directly as the value passes §5.8.5 IsVariableUsageAllowed
+    (`Spec.variableUsageAllowed`, the C29 rule, with the argument's default) and the value is accepted by the descent. -/
+theorem argument_value_iff_spec (S : ValueCheck.Schema) (hS : ValueCheck.Spec.Closed S) (vars : List XVarDef)
+    (ty : ValueCheck.Ty) (hd : Bool) (v : ValueCheck.Value) (hdef : ValueCheck.Spec.Defined S ty) :
+    argValueDiags S vars ty hd v = [] ↔ ExecArgOK S vars ty hd v :=
+  arg_values_iff S hS vars ty hd v hdef
+
+/-- against the specification proper (every variable, at any depth, judged by IsVariableUsageAllowed at its position):
+    what the specification accepts the code accepts, always … -/
+theorem spec_argument_value_accepted (S : ValueCheck.Schema) (hS : ValueCheck.Spec.Closed S) (vars : List XVarDef)
+    (ty : ValueCheck.Ty) (hd : Bool) (v : ValueCheck.Value) (hdef : ValueCheck.Spec.Defined S ty)
+    (h : CoercesV S vars UsageRule ty hd v) : argValueDiags S vars ty hd v = [] :=
+  spec_value_accepted S hS vars ty hd v hdef h
+
+/-- … and conversely whenever no variable stands INSIDE a list or object literal (the value is a variable, or
+    contains none): then code and specification agree exactly on §5.6.1–4 and §5.8.5. -/
+theorem argument_value_iff_spec_no_nested (S : ValueCheck.Schema) (hS : ValueCheck.Spec.Closed S) (vars : List XVarDef)
+    (ty : ValueCheck.Ty) (hd : Bool) (v : ValueCheck.Value) (hdef : ValueCheck.Spec.Defined S ty) (hn : NoNestedVariable v) :
+    argValueDiags S vars ty hd v = [] ↔ CoercesV S vars UsageRule ty hd v :=
+  arg_values_iff_spec S hS vars ty hd v hdef hn
+
+/-- the guard is needed (known finding `nested-position`, at the level of values): `$x: Int` inside the list literal
+    `[$x]` given to `[Int!]` — the code reports nothing, the specification rejects (Int is not usable at Int!). -/
+theorem nested_position_value_witness :
+    argValueDiags ⟨[]⟩ [⟨"x", .named "Int", .absent⟩] (.list (.nonNullNamed "Int")) false (.list (.cons (.variable "x") .nil)) = [] ∧
+      ¬ CoercesV ⟨[]⟩ [⟨"x", .named "Int", .absent⟩] UsageRule (.list (.nonNullNamed "Int")) false (.list (.cons (.variable "x") .nil)) := by
+  refine ⟨by decide, ?_⟩
+  intro h
+  cases h with
+  | leaf _ _ _ hl _ => simp [IsLeaf] at hl
+  | customList _ _ _ hl _ _ => simp [ValueCheck.Ty.isList] at hl
+  | listItems _ _ _ _ hi =>
+    have := hi (.variable "x") (by simp [ValueCheck.Values.toList])
+    cases this with
+    | leaf _ _ _ hl _ => simp [IsLeaf] at hl
+    | «variable» _ _ _ vd hf hr =>
+      simp [List.find?] at hf
+      subst hf
+      have : UsageRule ⟨"x", .named "Int", .absent⟩ (.nonNullNamed "Int") false = (false = true) := by
+        unfold UsageRule; decide
+      simp only [ValueCheck.Ty.itemType] at hr
+      rw [this] at hr
+      cases hr
+
+/-- a variable directly as the value: the location default of the argument counts (§5.8.5) -/
+theorem top_level_variable_value_witness :
+    argValueDiags ⟨[]⟩ [⟨"x", .named "Int", .absent⟩] (.nonNullNamed "Int") false (.variable "x") = [.disallowedVariableUsage] ∧
+      argValueDiags ⟨[]⟩ [⟨"x", .named "Int", .absent⟩] (.nonNullNamed "Int") true (.variable "x") = [] := by
+  constructor <;> decide
+
+end Values56
+
+/-- THE COVERED RULES, TOGETHER (partial: see the inventory at the top for what stays outside —
+    the directive rules (C14), fragment cycles (C21), merging and subscriptions (sections 1–5),
     FragmentsOnCompositeTypes / FragmentSpreadTargetDefined / MissingSubselection (model + stream)).
     Unconditional (no guard on the document): the document-building phase reports a type-system definition,
     an operation problem (ambiguity / name collision / undefined root type), a fragment-definition problem
     (name collision / undefined type condition) or a selection error exactly when the corresponding
     specification rules fail; likewise each operation's variable definitions, unused variables and every
     argument list.  The checks of the validation walk (MissingSubselection, FragmentsOnCompositeTypes,
-    FragmentSpreadTargetDefined) are the node-level theorems above; §5.8.3 / §5.8.5 / §5.5.2.3 the typed ones. -/
+    FragmentSpreadTargetDefined) are the node-level theorems above; §5.8.3 / §5.8.5 / §5.5.2.3 the typed ones.
+    Last conjunct, §5.6.1–4 with §5.8.5 for the value of one argument whose definition is known (schema closed,
+    type a defined input type): exact against `ExecArgOK`; what the specification accepts is accepted; and exact
+    against the specification when no variable stands inside a literal (else the known finding `nested-position`). -/
 theorem executable_verdict_iff_spec_partial (p : Standalone.Params) (sc : Standalone.Schema) (ast : Standalone.Ast) :
     (.typeSystemDefinition ∈ (Standalone.build (some sc) ast).diags ↔ Standalone.Def.typeSystem ∈ ast) ∧
     ((.ambiguousAnonymousOperation ∈ (Standalone.build (some sc) ast).diags ∨ .operationNameCollision ∈ (Standalone.build (some sc) ast).diags ∨
@@ -514,9 +593,18 @@ theorem executable_verdict_iff_spec_partial (p : Standalone.Params) (sc : Standa
     (∀ doc o, Standalone.unusedVarDiags doc o = [] ↔ ∀ v ∈ o.vars, v.name ∈ Standalone.usedVars doc o) ∧
     (∀ defs as, (Standalone.uniqueArgs [] as = [] ∧ Standalone.undefinedArgs defs as = [] ∧ Standalone.requiredArgs defs as = []) ↔
       ((as.map (·.name)).Nodup ∧ (∀ a ∈ as, ∃ d ∈ defs, d.name = a.name) ∧
-        ∀ d ∈ defs, d.required = true → ∃ a, as.find? (fun a => a.name == d.name) = some a ∧ a.value.isNull = false)) := by
+        ∀ d ∈ defs, d.required = true → ∃ a, as.find? (fun a => a.name == d.name) = some a ∧ a.value.isNull = false)) ∧
+    (∀ (S : ValueCheck.Schema) (vars : List ExecValues.XVarDef) (ty : ValueCheck.Ty) (hd : Bool) (v : ValueCheck.Value),
+      ValueCheck.Spec.Closed S → ValueCheck.Spec.Defined S ty →
+        (ExecValues.argValueDiags S vars ty hd v = [] ↔ ExecValues.ExecArgOK S vars ty hd v) ∧
+        (ExecValues.CoercesV S vars ExecValues.UsageRule ty hd v → ExecValues.argValueDiags S vars ty hd v = []) ∧
+        (ExecValues.NoNestedVariable v →
+          (ExecValues.argValueDiags S vars ty hd v = [] ↔ ExecValues.CoercesV S vars ExecValues.UsageRule ty hd v))) := by
   refine ⟨executable_definitions_iff _ ast, operation_definitions_iff _ ast, fragment_definitions_iff _ ast,
-    fun parent sels => field_selections_iff sc sels parent, ?_, all_variables_used_iff, ?_⟩
+    fun parent sels => field_selections_iff sc sels parent, ?_, all_variables_used_iff, ?_,
+    fun S vars ty hd v hS hdef => ⟨argument_value_iff_spec S hS vars ty hd v hdef,
+      spec_argument_value_accepted S hS vars ty hd v hdef,
+      argument_value_iff_spec_no_nested S hS vars ty hd v hdef⟩⟩
   · intro vs
     have h1 := variable_uniqueness_iff p (some sc) vs
     have h2 := variables_are_input_types_iff p sc vs []
